@@ -17,7 +17,7 @@
 (* and require CallFails = {}, the trace specification takes r from the    *)
 (* recorded execution and logs CallFails.                                  *)
 (***************************************************************************)
-EXTENDS ContractsText, TLC
+EXTENDS ContractsText, AlgArith, TLC
 
 VARIABLES regs, memo
 
@@ -137,6 +137,48 @@ FamilyFails(fam, op, A, r) ==
 CallFails(fam, op, A, r, meta) ==
   FamilyFails(fam, op, A, r)
   \cup (IF fam = "ieee" THEN {} ELSE MemoFails(op, A, r, meta) \cup RelationFails(op, A, r))
+
+\* ---- drift: does the transcription (A) still reproduce the implementation's bits? --------------
+\* Re-executes the event through AlgArith at binary64.  A mismatch is reported as MODEL-DRIFT; it is
+\* never a violation (a refactoring that keeps the properties may change bits) but it tells that the
+\* exhaustive small-format results no longer speak about this code, and it steers extra sampling.
+AlgOf(op, A) ==
+  LET t1 == A[1].t   t2 == IF Len(A) >= 2 THEN A[2].t ELSE "-" IN
+  CASE op = "add" /\ t1 = "tf" /\ t2 = "tf" -> AAddTT(A[1].x, A[2].x)
+    [] op = "add" /\ t1 = "tf" /\ t2 = "f" -> AAddTF(A[1].x, A[2].w)
+    [] op = "add" /\ t1 = "f" /\ t2 = "tf" -> AAddFT(A[1].w, A[2].x)
+    [] op = "sub" /\ t1 = "tf" /\ t2 = "tf" -> ASubTT(A[1].x, A[2].x)
+    [] op = "sub" /\ t1 = "tf" /\ t2 = "f" -> ASubTF(A[1].x, A[2].w)
+    [] op = "sub" /\ t1 = "f" /\ t2 = "tf" -> ASubFT(A[1].w, A[2].x)
+    [] op = "mul" /\ t1 = "tf" /\ t2 = "tf" -> AMulTT(A[1].x, A[2].x)
+    [] op = "mul" /\ t1 = "tf" /\ t2 = "f" -> AMulTF(A[1].x, A[2].w)
+    [] op = "mul" /\ t1 = "f" /\ t2 = "tf" -> AMulFT(A[1].w, A[2].x)
+    [] op = "div" /\ t1 = "tf" /\ t2 = "tf" -> ADivTT(A[1].x, A[2].x)
+    [] op = "div" /\ t1 = "tf" /\ t2 = "f" -> ADivTF(A[1].x, A[2].w)
+    [] op = "div" /\ t1 = "f" /\ t2 = "tf" -> ADivFT(A[1].w, A[2].x)
+    [] op = "rem" /\ t1 = "tf" /\ t2 = "tf" -> ARemTT(A[1].x, A[2].x)
+    [] op = "rem" /\ t1 = "tf" /\ t2 = "f" -> ARemTF(A[1].x, A[2].w)
+    [] op = "rem" /\ t1 = "f" /\ t2 = "tf" -> ARemFT(A[1].w, A[2].x)
+    [] op = "recip" -> ARecip(A[1].x)
+    [] op = "neg" -> ANeg(A[1].x)
+    [] op = "abs" -> AAbs(A[1].x)
+    [] op = "new_add" -> ANewAdd(A[1].w, A[2].w)
+    [] op = "new_sub" -> ANewSub(A[1].w, A[2].w)
+    [] op = "new_mul" -> ANewMul(A[1].w, A[2].w)
+    [] op = "new_div" -> ANewDiv(A[1].w, A[2].w)
+    [] op = "floor" -> AFloor(A[1].x)
+    [] op = "ceil" -> ACeil(A[1].x)
+    [] op = "trunc" -> ATrunc(A[1].x)
+    [] op = "round" -> ARound(A[1].x)
+    [] op = "fract" -> AFract(A[1].x)
+DriftOps == {"add", "sub", "mul", "div", "rem", "recip", "neg", "abs", "new_add", "new_sub", "new_mul", "new_div",
+             "floor", "ceil", "trunc", "round", "fract"}
+\* TRUE iff the event is covered by the transcription and the words differ
+Drifted(op, A, r) ==
+  /\ op \in DriftOps /\ r.t = "tf"
+  /\ \A i \in 1..Len(A) : A[i].t \in {"tf", "f"}
+  /\ AlgOf(op, A) # r.x
+DriftNoOverlap(op, A, r) == op = "no_overlap" /\ r.t = "b" /\ ANoOverlap(A[1].w, A[2].w) # r.v
 
 \* ---- actions --------------------------------------------------------------------
 Group == /\ memo' = <<>>
